@@ -619,9 +619,15 @@ def f2(proj, rep, modules):
 
 
 def _unit_radicand(e):
-    """1 - X*X  or 1 - X**2  -> X ; else None."""
+    """1 - X*X  or 1 - X**2  -> X ;  c*(1 - P) / 1 - P with P a plain name (a purity / overlap that attains 1) -> P ; else None."""
+    if isinstance(e, ast.BinOp) and isinstance(e.op, ast.Mult):
+        for a, b in ((e.left, e.right), (e.right, e.left)):
+            if isinstance(a, ast.Constant) and isinstance(a.value, (int, float)) and a.value > 0:
+                return _unit_radicand(b)
     if isinstance(e, ast.BinOp) and isinstance(e.op, ast.Sub) and isinstance(e.left, ast.Constant) and e.left.value == 1:
         r = e.right
+        if isinstance(r, ast.Name):
+            return r
         if isinstance(r, ast.BinOp) and isinstance(r.op, ast.Mult) and ast.dump(r.left) == ast.dump(r.right):
             return r.left
         if isinstance(r, ast.BinOp) and isinstance(r.op, ast.Pow) and isinstance(r.right, ast.Constant) and r.right.value == 2:
@@ -808,4 +814,37 @@ def f4(proj, rep, modules):
                 else:
                     rep.undecided('F4', fi.qual, f'`{ast.unparse(c)[:70]}`: sign of `{ast.unparse(E)}` not derivable', m, c)
     rep.count('F4.sites', n)
+    return n
+
+
+# ================================================================= F5 clamp order
+RULE_F5 = ('F5: a clamp that protects a square root sits INSIDE it: `sqrt(maximum(0, x))`. The form `maximum(0, sqrt(x))` states the belief that x can be '
+           'negative (why else clamp) yet takes the root first: sqrt of a -1e-17 rounding error is NaN and maximum / clip propagate NaN, so the clamp '
+           'never acts (rank-deficient states make such eigenvalues routine).')
+
+
+def f5(proj, rep, modules):
+    rep.rule('F5', RULE_F5)
+    n = 0
+    for fi in proj.iter_functions(modules):
+        m = fi.module
+        for c in own_nodes(fi.node):
+            if not (isinstance(c, ast.Call) and c.args):
+                continue
+            ext = _ext(proj, m, c)
+            if ext in ('numpy.sqrt', 'torch.sqrt', 'math.sqrt'):
+                a = c.args[0]
+                if isinstance(a, ast.Call) and _ext(proj, m, a) in GUARD_MAX | GUARD_CLIP:
+                    n += 1
+                    rep.touch(m)
+                    rep.ok('F5', fi.qual, f'`{ast.unparse(c)[:60]}`: clamp inside the root', m, c)
+            elif ext in GUARD_MAX | GUARD_CLIP:
+                inner = [a for a in c.args if isinstance(a, ast.Call) and _ext(proj, m, a) in ('numpy.sqrt', 'torch.sqrt', 'math.sqrt')]
+                zero = any(_is_zero(a) for a in c.args) or any(k.arg in ('min', 'a_min') and _is_zero(k.value) for k in c.keywords)
+                if inner and zero:
+                    n += 1
+                    rep.touch(m)
+                    rep.violation('F5', fi.qual, f'`{ast.unparse(c)[:80]}` clamps AFTER the square root: for a slightly negative `{ast.unparse(inner[0].args[0])[:40]}` the '
+                                  f'root is NaN and the clamp propagates it (concurrence / EOF / GME of rank-deficient states become NaN)', m, c)
+    rep.count('F5.clamped_roots', n)
     return n
